@@ -328,6 +328,43 @@ func (e *Engine) model(st *State, name string, fn *ssa.Function, args []Val, rt 
 		}
 		st.addEvent(Event{Kind: "bounds", Fn: "binary.Uint", Args: []Val{formInt(int64(n)), sl.Len}, Pos: in.Pos()})
 		return one(e.fromBV(bv, rt))
+	case "(encoding/binary.bigEndian).PutUint16", "(encoding/binary.bigEndian).PutUint32", "(encoding/binary.bigEndian).PutUint64",
+		"(encoding/binary.littleEndian).PutUint16", "(encoding/binary.littleEndian).PutUint32", "(encoding/binary.littleEndian).PutUint64":
+		// ByteOrder.PutUintN(b, v): b[k] = the k-th byte of v in that order
+		sl, ok := args[1].(*SliceVal)
+		v, okV := args[2].(*Form)
+		if !ok || !okV {
+			return nil, false
+		}
+		n := map[string]int{"16": 2, "32": 4, "64": 8}[name[len(name)-2:]]
+		little := strings.Contains(name, "littleEndian")
+		bv := e.toBV(v, 8*n, false)
+		st.addEvent(Event{Kind: "bounds", Fn: "binary.PutUint", Args: []Val{formInt(int64(n)), sl.Len}, Pos: in.Pos()})
+		for k := 0; k < n; k++ {
+			pos := 8 * k
+			if !little {
+				pos = 8 * (n - 1 - k)
+			}
+			bb := &BV{Bits: append([]Bit(nil), bv.Bits[pos:pos+8]...)}
+			off := sl.Lo.Add(formInt(int64(k)))
+			var ptr *Ptr
+			switch {
+			case sl.Arr != nil:
+				if c, isC := off.ConstInt(); isC {
+					ptr = &Ptr{Cell: sl.Arr.Cell, Path: append(append([]int(nil), sl.Arr.Path...), int(c)), Elem: types.Typ[types.Uint8]}
+				} else {
+					ptr = &Ptr{Cell: sl.Arr.Cell, Path: sl.Arr.Path, SymIdx: off, Elem: types.Typ[types.Uint8]}
+				}
+			case sl.Base != nil:
+				ptr = &Ptr{Base: sl.Base, SymIdx: off, Elem: types.Typ[types.Uint8]}
+			default:
+				return nil, false
+			}
+			if why := e.store(st, ptr, e.fromBV(bb, types.Typ[types.Uint8])); why != "" {
+				return nil, false
+			}
+		}
+		return one(nil)
 	case "bytes.HasPrefix":
 		sl, ok1 := args[0].(*SliceVal)
 		pf, ok2 := args[1].(*SliceVal)
